@@ -741,6 +741,8 @@ XACases == {c \in XAAll : ~Quick \/ XAQuickSel(c)}
 \*   unit : function declaration, function expression, arrow, forEach callback, method of an object literal, the script itself
 \*   lead : nothing before it / a `var` without initialiser / an empty statement / the construct inside a bare block
 \*   kd, ex, en : as in CF, plus kd "forbare" = for (; n < 3; ) without init and update
+\* a script whose global names `pre` the host has set to 0 before it runs
+ProgPre(body, pre) == [body |-> body, pre |-> pre]
 FPUnits == {"decl", "fexpr", "arrow", "cb", "method", "script"}
 FPLeads == {"first", "barevar", "empty", "inblock"}
 FPKinds == LoopKinds \cup {"forbare"}
@@ -800,8 +802,8 @@ LSBody(c) ==
       when == SIf(Bin("==", N, ENum(trig)), SBlock(<<go>>), NoS)
   IN <<Inc("n"), SLog(N)>>
      \o (CASE c.via = "direct" -> <<when>>
-           [] c.via = "infor" -> <<SFor(SVar1("j", ENum(0)), Bin("<", Var("j"), ENum(2)), Asg("j", Plus(Var("j"), ENum(1))),
-                                        SBlock(<<SLog(Plus(Var("j"), ENum(20))), when, SLog(Plus(Var("j"), ENum(30)))>>))>>
+           [] c.via = "infor" -> <<SFor(SVar1("jj", ENum(0)), Bin("<", Var("jj"), ENum(2)), Asg("jj", Plus(Var("jj"), ENum(1))),
+                                        SBlock(<<SLog(Plus(Var("jj"), ENum(20))), when, SLog(Plus(Var("jj"), ENum(30)))>>))>>
            [] c.via = "inforin" -> <<SForIn(TRUE, "q", Obj(<<"x", "y">>, <<ENum(1), ENum(2)>>), SBlock(<<SLog(Var("q")), when, SLog(EStr("z"))>>))>>
            [] c.via = "insw" -> <<SSwitch(N, <<Case(ENum(trig), <<SLog(EStr("s")), go>>), Case(NoE, <<SLog(EStr("d"))>>)>>)>>
            [] c.via = "intry" -> <<STry(SBlock(<<when, SLog(EStr("t"))>>), "e", NoS, SBlock(<<SLog(EStr("F"))>>))>>)
@@ -817,23 +819,23 @@ LSValid(c) == c.tg <= c.d /\ (c.ex = "continue" => IsLoop(c.kd))
 LSQuickSel(c) ==
   \/ (c.via = "direct" /\ c.en = "none" /\ c.pl = "top")
   \/ (c.kd \in {"while", "forof"} /\ <<c.d, c.tg>> \in {<<2, 1>>, <<3, 2>>} /\ c.en = "none" /\ c.pl = "top")
-  \/ (c.kd \in {"dowhile", "for", "switch"} /\ <<c.d, c.tg>> = <<2, 1>> /\ c.via = "direct" /\ (c.en = "none" \/ c.pl = "top"))
+  \/ (c.kd \in {"dowhile", "for", "switch"} /\ <<c.d, c.tg>> = <<2, 1>> /\ c.via = "direct")
 LSCases == {c \in LSAll : LSValid(c) /\ (~Quick \/ LSQuickSel(c))}
 
 \* law of the quick selections above: every value of every dimension of the three families occurs in the selection, and so do
 \* the pairs the families exist for (a hand-written sub-grid that drops a class fails the specification run, not silently)
 NewFamilyCoverage ==
-  /\ \A c \in XAAll : /\ \E q \in XACases : q.kd = c.kd      /\ \E q \in XACases : q.cf = c.cf
-                      /\ \E q \in XACases : q.site = c.site  /\ \E q \in XACases : q.nest = c.nest
-                      /\ \E q \in XACases : q.pk = c.pk /\ q.acc = c.acc /\ q.kd = "param" /\ q.cf = "xarrow"
-  /\ \A c \in {q \in FPAll : FPValid(q)} :
-                      /\ \E q \in FPCases : q.unit = c.unit /\ q.lead = c.lead
-                      /\ \E q \in FPCases : q.en = c.en
-                      /\ (c.en = "none" => \E q \in FPCases : q.kd = c.kd /\ q.ex = c.ex /\ q.en = "none" /\ q.lead = "first")
-  /\ \A c \in {q \in LSAll : LSValid(q)} :
-                      /\ \E q \in LSCases : q.kd = c.kd /\ q.d = c.d /\ q.tg = c.tg /\ q.ex = c.ex
-                      /\ \E q \in LSCases : q.via = c.via /\ q.ex = c.ex
-                      /\ \E q \in LSCases : q.en = c.en     /\ \E q \in LSCases : q.pl = c.pl
+  /\ \A kd \in XAKinds : \E q \in XACases : q.kd = kd
+  /\ \A cf \in XAForms, site \in XASites, nest \in XANests : \E q \in XACases : q.cf = cf /\ q.site = site /\ q.nest = nest
+  /\ \A pk \in XAPacks, acc \in XAAccs : \E q \in XACases : q.pk = pk /\ q.acc = acc /\ q.kd = "param" /\ q.cf = "xarrow"
+  /\ \A unit \in FPUnits, lead \in FPLeads : \E q \in FPCases : q.unit = unit /\ q.lead = lead
+  /\ \A en \in FPEncls : \E q \in FPCases : q.en = en
+  /\ \A kd \in FPKinds, ex \in ExitKinds :
+        LET c == [kd |-> kd, ex |-> ex, en |-> "none", unit |-> "decl", lead |-> "first"] IN FPValid(c) => c \in FPCases
+  /\ \A kd \in LoopKinds, d \in 1..3, tg \in 1..3, ex \in {"break", "continue"} :
+        LET c == [kd |-> kd, d |-> d, tg |-> tg, ex |-> ex, via |-> "direct", en |-> "none", pl |-> "top"] IN LSValid(c) => c \in LSCases
+  /\ \A via \in LSVias, ex \in {"break", "continue"} : \E q \in LSCases : q.via = via /\ q.ex = ex /\ q.d > 1 /\ q.tg < q.d
+  /\ \A en \in {"none", "for", "forof"}, pl \in {"top", "fn"} : \E q \in LSCases : q.en = en /\ q.pl = pl
 
 \* ======================= the case space ===========================================================
 FamilyProg(cs) == CASE cs.fam = "CF" -> CFProg(cs.c) [] cs.fam = "SW" -> SWProg(cs.c) [] cs.fam = "EO" -> EOProg(cs.c.j)
